@@ -50,11 +50,13 @@ def partPrefix : Str := ['p', 'a', 'r', 't']
 def isPartMarker (e : Str) : Bool :=
   partPrefix.isPrefixOf e && !(e.drop 4).isEmpty && (e.drop 4).all isDigit
 
-/-- the inner `with_ext` on the file name -/
+/-- the inner `with_ext` on the file name (after the `fix:` that stopped a foreign extension from
+    being replaced): `.pna` names get `.partN` before the extension, an existing `.partN` marker is
+    replaced, anything else is kept whole and `.partN` is appended -/
 def withExt (name : Str) (n : Nat) : Option Str :=
   match splitExt name with
   | none => none
-  | some (stem, none) => some (withExtension stem (partPrefix ++ decimal n))
+  | some (_, none) => some (name ++ '.' :: partPrefix ++ decimal n)
   | some (stem, some e) =>
     if e.map lower = ['p', 'n', 'a'] then
       let marker := match splitExt stem with
@@ -65,7 +67,8 @@ def withExt (name : Str) (n : Nat) : Option Str :=
         | some (base, _) => some (base ++ '.' :: partPrefix ++ decimal n ++ '.' :: e)
         | none => none
       else some (stem ++ '.' :: partPrefix ++ decimal n ++ '.' :: e)
-    else some (withExtension stem (partPrefix ++ decimal n))
+    else if isPartMarker e then some (stem ++ '.' :: partPrefix ++ decimal n)
+    else some (name ++ '.' :: partPrefix ++ decimal n)
 
 /-- split a simple path at its last '/': (parent with the slash, file name) -/
 def splitPath (p : Str) : Str × Str :=
